@@ -73,13 +73,14 @@ class Monitor(gym.Wrapper[ObsType, ActType, ObsType, ActType]):
                 "Tried to reset an environment before done. If you want to allow early resets, "
                 "wrap your env with Monitor(env, path, allow_early_resets=True)"
             )
-        self.rewards = []
-        self.needs_reset = False
         for key in self.reset_keywords:
             value = kwargs.get(key)
             if value is None:
                 raise ValueError(f"Expected you to pass keyword argument {key} into reset")
             self.current_reset_info[key] = value
+        # Only start a new episode once the reset is known to go through
+        self.rewards = []
+        self.needs_reset = False
         return self.env.reset(**kwargs)
 
     def step(self, action: ActType) -> tuple[ObsType, SupportsFloat, bool, bool, dict[str, Any]]:
